@@ -350,6 +350,7 @@ pub fn run(cfg: &RunCfg, rep: &mut Report) {
             timelocks: true,
             hashes: true,
             max_depth: 4,
+            timelock_heavy: false,
         };
         let leaves = 1 + rng.below(8);
         let p = PolGen::new(&mut rng, pcfg.clone()).gen(leaves, 0);
